@@ -107,6 +107,26 @@ type kpAmb struct {
 	Own string
 }
 
+// two distinct types whose reflect.Type.String() is the same ("grpcgcp.kpTwin") and whose fields are
+// laid out differently: extraction must not depend on which of them was seen first
+func kpTwinA() interface{} {
+	type kpTwin struct {
+		Name  string
+		Id    string
+		Child *kpInner
+	}
+	return &kpTwin{Name: "a-name", Id: "a-id", Child: &kpInner{Key: "a-child"}}
+}
+func kpTwinB() interface{} {
+	type kpTwin struct {
+		Child *kpInner
+		Extra int
+		Id    string
+		Name  string
+	}
+	return &kpTwin{Name: "b-name", Id: "b-id", Child: &kpInner{Key: "b-child"}, Extra: 1}
+}
+
 func kpCorpus() []interface{} {
 	in := &kpInner{Key: "k", Keys: []string{"a", "b"}, Num: 3, Blob: []byte("xy"), Next: &kpInner{Key: "n"}, Any: &kpInner{Key: "any"}, priv: "p", Named: "nm"}
 	pin := in
@@ -118,6 +138,7 @@ func kpCorpus() []interface{} {
 		&kpInner{Any: "iface-string", Keys: []string{}},
 		&pb.ApiConfig{ChannelPool: &pb.ChannelPoolConfig{MaxSize: 3}, Method: []*pb.MethodConfig{{Name: []string{"m1", "m2"}, Affinity: &pb.AffinityConfig{AffinityKey: "key"}}, {Name: []string{"m3"}}}},
 		&pb.MethodConfig{Name: []string{}},
+		kpTwinA(), kpTwinB(),
 		&testMsg{Key: "test_key", NestedField: &nestedField{Key: "nk", RepeatedString: []string{"r1", "r2"}}, RepeatedField: []*nestedField{{Key: "a"}, {Key: "b"}}, RepeatedString: []string{"x", "y"}, RepeatedInt: []int{1, 2}},
 	}
 }
@@ -125,7 +146,7 @@ func kpCorpus() []interface{} {
 var kpLocators = []string{"", "key", "Key", "keys", "num", "blob", "arr", "m", "next.key", "next.next.key", "any.key", "any", "priv", "named",
 	"name", "items.key", "items.keys", "vals.key", "ifs.key", "ifs", "pP.key", "pP", "f", "key2", "dup", "own", "kpInner.key", "kpEmb.key2",
 	"channelPool.maxSize", "method.name", "method.affinity.affinityKey", "method.affinity", "nestedField.key", "nestedField.repeatedString",
-	"repeatedField.key", "repeatedString", "repeatedInt", "key.x", "next..key", ".key", "key.", "next.", "..", "items", "x-y", "next key", "_x", "9a", "next.Key", "NEXT.KEY"}
+	"repeatedField.key", "repeatedString", "repeatedInt", "key.x", "next..key", ".key", "key.", "next.", "..", "items", "x-y", "next key", "_x", "9a", "next.Key", "NEXT.KEY", "id", "child.key", "extra"}
 
 // ---- random shapes built with reflect
 
@@ -306,6 +327,13 @@ func TestVerifKeyPath(t *testing.T) {
 	for _, m := range kpCorpus() {
 		for _, l := range kpLocators {
 			kpRun(w, l, m)
+		}
+	}
+	// once more in the opposite order: the result of an extraction must not depend on earlier calls
+	corpus := kpCorpus()
+	for i := len(corpus) - 1; i >= 0; i-- {
+		for j := len(kpLocators) - 1; j >= 0; j-- {
+			kpRun(w, kpLocators[j], corpus[i])
 		}
 	}
 	seed, _ := strconv.ParseInt(os.Getenv("VERIF_SEED"), 10, 64)
